@@ -103,6 +103,65 @@ func c19Eval(line string) (sig, detail, out1, out2 string, skip bool) {
 	return coarseLoc(p) + ":" + d, "pass 2 differs from pass 1 at " + p + ": " + d, o1, o2, false
 }
 
+// c19Collisions: files in which one text occurs in two class contexts (collisionGroups of C05: every ordered pair of
+// contexts x placements x same / different field names x short and long texts), through the real CLI in separate
+// processes: pass 2 over the output file of pass 1 must reproduce it.  A placeholder chosen by what a text was seen
+// as earlier in the run is not what the next run - which sees the placeholder, not the text - chooses.
+func c19Collisions(c *Ctx) {
+	dir := freshDir(c.Scratch, "c19coll")
+	var lines []string
+	var no int64
+	collisionGroups(func(desc string, cases []*sweepCase) {
+		no++
+		if !c.Mine(no) {
+			return
+		}
+		for _, sc := range cases {
+			lines = append(lines, sc.Line)
+		}
+		c.Distinct("collision-group|" + cases[0].Line)
+	})
+	if len(lines) == 0 {
+		return
+	}
+	in := filepath.Join(dir, "in.log")
+	os.WriteFile(in, []byte(strings.Join(lines, "\n")+"\n"), 0o644)
+	for _, fl := range []Flags{{}, {N: true, B: true, I: true, R: "<x>"}} {
+		o1, o2 := filepath.Join(dir, "pass1.log"), filepath.Join(dir, "pass2.log")
+		r1, err1 := runCLI(CLIRun{Bin: c.CLI, Args: append([]string{"redact", in, "--outputFile", o1}, fl.CLIArgs("")...), Dir: dir})
+		r2, err2 := runCLI(CLIRun{Bin: c.CLI, Args: append([]string{"redact", o1, "--outputFile", o2}, fl.CLIArgs("")...), Dir: dir})
+		c.Eval(2)
+		c.Count("cli_runs", 2)
+		if err1 != nil || err2 != nil || r1.Exit != 0 || r2.Exit != 0 {
+			c.Violate("refix-collisions:run-fails", fmt.Sprintf("flags [%s]: pass 1 exits %d, pass 2 exits %d: %s", fl, r1.Exit, r2.Exit, trunc(string(r1.Stderr)+string(r2.Stderr), 300)), 0, map[string]any{"kind": "c19-collisions", "flags": fl.String()}, nil)
+			continue
+		}
+		b1, _ := os.ReadFile(o1)
+		b2, _ := os.ReadFile(o2)
+		if string(b1) == string(b2) {
+			c.Outcome("fixed-point")
+			continue
+		}
+		l1, l2 := strings.Split(string(b1), "\n"), strings.Split(string(b2), "\n")
+		k := 0
+		for k < len(l1) && k < len(l2) && l1[k] == l2[k] {
+			k++
+		}
+		a, b, inl := "", "", ""
+		if k < len(l1) {
+			a = l1[k]
+		}
+		if k < len(l2) {
+			b = l2[k]
+		}
+		if k < len(lines) {
+			inl = lines[k]
+		}
+		c.Violate("refix-collisions:differs", fmt.Sprintf("flags [%s]: a file in which texts occur in two class contexts is not a fixed point: line %d of pass 2 differs from pass 1; input line: %s | pass 1: %s | pass 2: %s", fl, k+1, trunc(inl, 400), trunc(a, 400), trunc(b, 400)), int64(k),
+			map[string]any{"kind": "c19-collisions", "flags": fl.String(), "input": inl, "pass1": a, "pass2": b}, nil)
+	}
+}
+
 func c19Run(c *Ctx) {
 	fs := c19Flags(c.Thorough())
 	var corpus []string
@@ -140,6 +199,7 @@ func c19Run(c *Ctx) {
 	}
 	// already redacted lines of every length are reproduced by the real line reader; lines that grow in pass 1
 	streamLenSweep(c, "C19", []string{"fixed-point", "array-pad"}, Flags{})
+	c19Collisions(c)
 	sweep(c, layers, func(sc *sweepCase) bool {
 		if sc.C.Root.HasDup() {
 			return false
